@@ -138,6 +138,20 @@ func runC14(r *rt.Run, tier string) {
 	}
 	lz := p.CtlCodec == "lzma" || p.DataCodec == "lzma"
 	img := p.Image
+	// the process-wide tuning knob of the xz decoder is a per-run choice: unset,
+	// the default, the corpus' own dictionary size (8 MiB), more, or far too
+	// little (then refusing an xz member is legitimate, wrong data is not)
+	xzTiny := false
+	if k := t.Weighted([]int{4, 2, 2, 2, 1, 2}, "knob.xzdict"); k > 0 {
+		v := []uint32{0, 0, 1 << 23, 1 << 26, 1<<32 - 1, 1 << 16}[k]
+		deb.SetXZMaxDict(v)
+		defer deb.SetXZMaxDict(0)
+		r.Stats[fmt.Sprintf("knob.xzdict=%d", v)]++
+		xzTiny = k == 5 && (p.CtlCodec == "xz" || p.DataCodec == "xz")
+		if xzTiny {
+			r.Probe("xz-dictionary-limit-below-need")
+		}
+	}
 	reject := ""
 	if mode == 1 {
 		reject = c14Rejects[t.Draw(len(c14Rejects), "c14.reject")]
@@ -290,6 +304,19 @@ func runC14(r *rt.Run, tier string) {
 			continue
 		}
 		// fault-free
+		if xzTiny && (o.err != nil || o.ferr != nil) {
+			// the decoder may refuse; what it did hand out completely must be right
+			r.Probe("xz-member-refused-under-limit")
+			if o.err == nil {
+				if diff := controlDiff(&o.d.Control, &p.Ctl.Model); diff != "" {
+					r.Violate("C14/control-mismatch", fieldOf(diff)+"/xz-limit", "[%s] %s", key, diff)
+				}
+				if d := dataDiff(o.files, p.Data.Files, true); d != "" {
+					r.Violate("C14/payload-mismatch", key+"/xz-limit", "%s (tar error: %v)", d, o.ferr)
+				}
+			}
+			continue
+		}
 		if o.err != nil {
 			r.Violate("C14/load-error", key, "well-formed package rejected: %v", o.err)
 			return
@@ -343,7 +370,7 @@ func runC14(r *rt.Run, tier string) {
 func init() {
 	register(&Prop{
 		ID: "C14", Level: "exploration", Variant: "I", Design: "DESIGN.md §5 C14",
-		Rule:      "Each run draws a package model (control paragraph with dependencies and multi-line description, control-tar file order and control name './control' or 'control', 0..6 data files up to 64 KiB, 0..2 extra '_' members in any position after debian-binary) and one of the 36 (control codec x data codec) pairs over {none, gz, xz, bz2, lzma, zst}; none/gz/zst/lzma payloads are generated per run, xz/bz2 payloads come from a committed corpus of 10 pre-compressed tars each. The image is loaded 1..4 times through deb.Load on a simulated disk (strict or eof-eager) or deb.LoadFile on the simulated file system, each time under a tape-chosen member order of the loader's map scans. Configurations: fault-free (exact equality with the model), reject classes (format version 1.0/3.0/0.939000/empty; missing debian-binary/control/data), and EIO on a byte range.",
+		Rule:      "Each run draws a package model (control paragraph with dependencies and multi-line description, control-tar file order and control name './control' or 'control', 0..6 data files up to 64 KiB, 0..2 extra '_' members in any position after debian-binary) and one of the 36 (control codec x data codec) pairs over {none, gz, xz, bz2, lzma, zst}; none/gz/zst/lzma payloads are generated per run, xz/bz2 payloads come from a committed corpus of 10 pre-compressed tars each. The image is loaded 1..4 times through deb.Load on a simulated disk (strict or eof-eager) or deb.LoadFile on the simulated file system, each time under a tape-chosen member order of the loader's map scans. The xz decoder's process-wide dictionary limit (deb.SetXZMaxDict) is a per-run knob: untouched, default, exactly the corpus' 8 MiB, larger, or 64 KiB (then an xz member may be refused but never misread). Configurations: fault-free (exact equality with the model), reject classes (format version 1.0/3.0/0.939000/empty; missing debian-binary/control/data), and EIO on a byte range.",
 		Run:       runC14,
 		QuickRuns: 40000, QuickSecs: 40, ThoroughRuns: 2_000_000, ThoroughSecs: 900,
 		Components: map[string]interface{}{
@@ -354,5 +381,5 @@ func init() {
 		},
 		Assumptions: []string{"kjk/lzma decodes in its own goroutine: for packages with an lzma member the disk runs in quiet mode (no trace events, no EIO) so that the trace stays deterministic", "tar and gzip writers of the Go stdlib and the zstd/lzma encoders of the third-party modules are trusted to produce valid payloads"},
 	})
-	propProbes["C14"] = []string{"earlier-package-closed-twice", "gzip-member-with-several-streams", "fault-on-extra-member", "loads-interleaved", "via-LoadFile", "loaded-repeatedly", "extra-underscore-member"}
+	propProbes["C14"] = []string{"xz-member-refused-under-limit", "xz-dictionary-limit-below-need", "earlier-package-closed-twice", "gzip-member-with-several-streams", "fault-on-extra-member", "loads-interleaved", "via-LoadFile", "loaded-repeatedly", "extra-underscore-member"}
 }
